@@ -496,6 +496,18 @@ def run_case(c):
                                     signature='OpGraph.__init__:shares_state'))
         except Exception as e:      # noqa: BLE001
             k.fails.append(dict(clause='shares_state', detail=f'two graphs built from the same argument lists: {type(e).__name__}: {e}', signature='OpGraph.__init__:shares_state'))
+        # edges as accumulators: an edge without operators takes up two others one after the other; the added edges stay as they were
+        try:
+            from pytenet.opgraph import OpGraphEdge
+            e1 = OpGraphEdge(5, [3, 4], [(2, 0.5), (1, -1.0)]); e2 = OpGraphEdge(6, [3, 4], [(1, 0.25), (3, 2.0)])
+            snap1, snap2 = list(e1.opics), list(e2.opics)
+            acc = OpGraphEdge(7, [3, 4], [])
+            acc.add(e1); acc.add(e2)
+            if list(e1.opics) != snap1 or list(e2.opics) != snap2 or list(acc.opics) != [(1, -0.75), (2, 0.5), (3, 2.0)]:
+                k.fails.append(dict(clause='shares_state', detail=f'OpGraphEdge.add on an empty accumulator edge: first added edge {snap1} -> {list(e1.opics)}, second {snap2} -> {list(e2.opics)}, '
+                                    f'accumulator {list(acc.opics)}', signature='OpGraphEdge.add:shares_state'))
+        except Exception as e:      # noqa: BLE001
+            k.fails.append(dict(clause='shares_state', detail=f'OpGraphEdge.add on an empty accumulator edge: {type(e).__name__}: {e}', signature='OpGraphEdge.add:shares_state'))
     elif kind == 'evolve':
         models = ('ising', 'xxz', 'spin1', 'bose', 'fermion', 'hubbard', 'herm')
         model = models[int(rng.integers(len(models)))]
